@@ -20,20 +20,37 @@ for sid in sys.argv[1:]:
             replays = [l.split("replay=")[1].strip() for l in text.splitlines() if l.startswith("VIOLATION")]
             r = {"quick_exit": c.returncode, "violation_signatures": sigs, "summary": text.splitlines()[0] if text else ""}
             if replays:
-                rp = subprocess.run([os.path.join(V, "bin", "check"), prop, "--replay", replays[0]], env=env, stdout=subprocess.PIPE, stderr=subprocess.PIPE)
-                r["replay_on_changed_tree_exit"] = rp.returncode
-                rp0 = subprocess.run([os.path.join(V, "bin", "check"), prop, "--replay", replays[0]], env=dict(os.environ), stdout=subprocess.PIPE, stderr=subprocess.PIPE)
-                r["replay_on_unchanged_tree_exit"] = rp0.returncode
-                shutil.copy(replays[0], os.path.join(d, "replay-%s.json" % prop))
+                # every reported violation is replayed on both trees: it must fail on the changed tree and
+                # PASS on the unchanged one (a replay that fails on the unchanged tree is a false alarm of
+                # the machinery, not a detection)
+                good, false_alarms = [], []
+                for rf in replays:
+                    rp = subprocess.run([os.path.join(V, "bin", "check"), prop, "--replay", rf], env=env, stdout=subprocess.PIPE, stderr=subprocess.PIPE)
+                    rp0 = subprocess.run([os.path.join(V, "bin", "check"), prop, "--replay", rf], env=dict(os.environ), stdout=subprocess.PIPE, stderr=subprocess.PIPE)
+                    if rp0.returncode != 0:
+                        false_alarms.append(os.path.basename(rf))
+                        shutil.copy(rf, "/tmp/false-alarm-" + os.path.basename(rf))
+                        print("FALSE-ALARM? replay %s fails on the UNCHANGED tree (exit %d); kept as /tmp/false-alarm-%s" % (rf, rp0.returncode, os.path.basename(rf)))
+                    elif rp.returncode == 1:
+                        good.append(rf)
+                r["replays"] = len(replays)
+                r["replays_reproducing_on_changed_tree_and_passing_on_unchanged"] = len(good)
+                r["replays_failing_on_unchanged_tree"] = false_alarms
+                first = good[0] if good else replays[0]
+                r["replay_on_changed_tree_exit"] = 1 if good else 0
+                r["replay_on_unchanged_tree_exit"] = 0 if good else (1 if false_alarms else 0)
+                shutil.copy(first, os.path.join(d, "replay-%s.json" % prop))
                 for x in replays:
                     if os.path.exists(x):
                         os.remove(x)
+                if not good:
+                    r["quick_exit_counts_as_detection"] = False
             commit = subprocess.check_output(["git", "-C", V, "rev-parse", "--short", "HEAD"]).decode().strip()
             meta.setdefault("rechecks", []).append({"verif_commit_before_this_run": commit, "property": prop, "previous": meta["checks"].get(prop), "now": r})
             meta["checks"][prop] = r
             meta["ran"].append("recheck: VERIF_REPO=<HEAD+patch> bin/check %s --tier quick -> exit %d %s" % (prop, c.returncode, ",".join(sigs)))
-        meta["detected"] = any(v["quick_exit"] == 1 for v in meta["checks"].values())
+        meta["detected"] = any(v["quick_exit"] == 1 and v.get("quick_exit_counts_as_detection", True) for v in meta["checks"].values())
     finally:
         shutil.rmtree(T, ignore_errors=True)
     json.dump(meta, open(os.path.join(d, "meta.json"), "w"), indent=1)
-    print(sid, {k: (v["quick_exit"], v["violation_signatures"]) for k, v in meta["checks"].items()})
+    print(sid, {k: (v["quick_exit"], v["violation_signatures"], "good-replays=%s false-alarms=%s" % (v.get("replays_reproducing_on_changed_tree_and_passing_on_unchanged"), v.get("replays_failing_on_unchanged_tree"))) for k, v in meta["checks"].items()}, "DETECTED" if meta["detected"] else "MISSED")
